@@ -1136,6 +1136,55 @@ def r6_meta(run):
                       af.func, cfg.node(n).ast if cfg.node(n).ast is not None else cfg.node(n).text(), where='%s:%s' % (af.func.file, cfg.node(n).lineno))
 
 
+# ---------------------------------------------------------------------------
+# R7 static route matching only uses the normalised prefix
+# ---------------------------------------------------------------------------
+
+def r7_static_prefix(run):
+    """StaticRoute.__init__ normalises the prefix (appends the trailing '/'
+    when missing); match() decides with what the constructor stored.  Every
+    prefix-derived attribute that match() reads must hold the NORMALISED form
+    (bound after the normalisation, or computed from the stored prefix): an
+    attribute captured before it has two spellings depending on how the route
+    was registered ('/s' vs '/s/'), and the "bare prefix" comparison of a route
+    with a fallback file then misses.  W: add_static_route('/s/', dir,
+    fallback_filename=...); GET /s -> falls through to an older sink / 404."""
+    p = run.project
+    init = p.func('falcon.routing.static.StaticRoute.__init__')
+    match = p.func('falcon.routing.static.StaticRoute.match')
+    cfg = cfg_of(init, p)
+    run.use_cfg(cfg)
+    run.use(match)
+    pparam = init.params()[1]
+    norm = [n for n in cfg.live_nodes() if n.kind == 'test' and any(
+        isinstance(x, ast.Call) and isinstance(x.func, ast.Attribute) and x.func.attr == 'endswith' and isinstance(x.func.value, ast.Name)
+        and x.func.value.id == pparam for x in ast.walk(n.ast))]
+    if len(norm) != 1:
+        raise UnknownIdiom('StaticRoute.__init__: expected one trailing-slash normalisation test on %s, found %d' % (pparam, len(norm)))
+    norm_id = norm[0].id
+    after_norm = flow.reachable(cfg, [y for (y, _l) in cfg.succ[norm_id]], avoid_nodes=[norm_id])
+    stored = {}
+    for n in cfg.live_nodes():
+        if n.kind == 'stmt' and isinstance(n.ast, (ast.Assign, ast.AnnAssign)) and n.ast.value is not None:
+            tg = n.ast.targets if isinstance(n.ast, ast.Assign) else [n.ast.target]
+            for t in tg:
+                if isinstance(t, ast.Attribute) and isinstance(t.value, ast.Name) and t.value.id == 'self' \
+                        and any(isinstance(x, ast.Name) and x.id == pparam for x in ast.walk(n.ast.value)):
+                    stored.setdefault(t.attr, []).append(n)
+    if not stored:
+        raise AnchorError('StaticRoute.__init__ stores no attribute derived from the prefix')
+    read = {x.attr for x in ast.walk(match.node) if isinstance(x, ast.Attribute) and isinstance(x.value, ast.Name) and x.value.id == 'self'}
+    used = sorted(a for a in stored if a in read)
+    if not used:
+        raise AnchorError('StaticRoute.match reads no prefix-derived attribute')
+    for a in used:
+        for n in stored[a]:
+            # bound strictly after the normalisation test, and not able to run again before it
+            ok = n.id in after_norm and norm_id not in flow.reachable(cfg, [n.id], avoid_nodes=[])  # no path back to the test
+            run.check(ok, 'self.%s, read by StaticRoute.match(), is bound from the prefix after its trailing-slash normalisation' % a, init, n.ast,
+                      runtime_witness="add_static_route('/s/', dir, fallback_filename='index.html'); GET /s is not matched (an older sink answers, or 404)")
+
+
 def check(run):
     run.assume('router.find() returns None or a tuple whose first component is the resource (None for legacy routers that found nothing)')
     run.assume('list.insert(0, x) / append / + / tuple() / reversed() have their standard ordering semantics; the order-polarity lattice covers exactly these forms')
@@ -1146,3 +1195,4 @@ def check(run):
     run.rule('R4', r4_allow, 'Allow computation for 405 and the automatic OPTIONS responder', floor=24)
     run.rule('R5', r5_suffix_kwargs, 'suffixed lookups, sink kwargs, **params', floor=10)
     run.rule('R6', r6_meta, 'meta methods rejected before any routing event', floor=15)
+    run.rule('R7', r7_static_prefix, 'static route matching uses only the normalised prefix', floor=1)
